@@ -338,7 +338,9 @@ def subTok (env : Env) (st : St) (cx : Ctx) (recv : Option Nat) (name : Str) : E
       else match cx.stack.head? with
         | none => .error .subStale
         | some top =>
-          if r != top then .error .subStale
+          -- strict identity with the topmost crossing frame's Cur; a frame's Cur is a primary
+          -- cur by construction (installCrossingCur), never an origin value or a sub token
+          if r != top || ri.kind != .cur then .error .subStale
           else if env.ephemeral host then .error .subEphemeral
           else if cx.owner != host then .error .subForeign
           else .ok (st.addTok { addr := .pkg synth, path := synth, prev := ri.prev, kind := .sub r name,
@@ -387,12 +389,14 @@ def newBanker (st : St) (cx : Ctx) (bt : Nat) (rlm : Option Nat) : Except Fail (
       | some ti =>
         if !isCurrent st cx.stack t then .error .notCurrent
         else if bt != 2 && hasHash ti.path then .error .subBt
-        else do
+        else
+          let mk : Nat × St := st.addBanker { bt := bt, addr := some ti.addr, path := ti.path,
+                                              src := .minted t (cx.stack.head?.getD 0) }
           if bt = 1 then
-            let uc ← prevIsUserCall st ti
-            if !uc then throw .notOrigin
-          pure (st.addBanker { bt := bt, addr := some ti.addr, path := ti.path,
-                               src := .minted t (cx.stack.head?.getD 0) })
+            match prevIsUserCall st ti with
+            | .error f => .error f
+            | .ok uc => if uc then .ok mk else .error .notOrigin
+          else .ok mk
 
 def readonlyBanker (st : St) : Nat × St :=
   st.addBanker { bt := 0, addr := none, path := [], src := .readonly }
@@ -437,36 +441,43 @@ def bankerIssue (env : Env) (st : St) (b : Option Nat) (burn : Bool) (addr denom
           -- SDKBanker: assertIssuable holds (the prefix starts with "/"); the address must parse
           match env.resolve addr with
           | none => .error .badAddress
-          | some a => do
-            let bank ← if burn then burnCoin st.bank a denom amt (.burn bid)
-                       else mintCoin st.bank a denom amt (.mint bid)
-            pure { st with bank := bank }
+          | some a =>
+            match (if burn then burnCoin st.bank a denom amt (.burn bid) else mintCoin st.bank a denom amt (.mint bid)) with
+            | .error f => .error f
+            | .ok bank => .ok { st with bank := bank }
 
 /-! ### chain/params: a string parameter of the current realm -/
 
-/-- `params.SetString(key, n × 'x')` executed while `realm` is the current realm.
-    Keeper `set`: diff = len(new) − len(old) (+ len(fullkey) on creation), the JSON of the
-    value being n+2 bytes; recordParamsDelta folds it into the per-message accumulator. -/
+/-- keeper `set`: diff = len(new) − len(old) (+ len(fullkey) on creation); the JSON of a
+    string of n plain bytes is n+2 bytes; fullkey = "vm:" + realm + ":" + key. -/
+def paramDiff (st : St) (realm key : Str) (n : Nat) : Int :=
+  let fullLen : Int := (3 + realm.length + 1 + key.length : Nat)
+  let newLen : Int := (n + 2 : Nat)
+  match alGet st.params (realm, key) with
+  | some old => newLen - (old : Int)
+  | none => newLen + fullLen
+
+/-- params_deposit.go `recordParamsDelta` on the (lazily loaded) accumulator entry -/
+def accumAdd (a : Accum) (diff : Int) : Accum :=
+  let bytes := a.bytes + diff
+  let floored := decide (bytes < 0)
+  let delta := a.delta + diff
+  ⟨if floored then 0 else bytes, if floored && decide (delta < 0) then 0 else delta⟩
+
+def curAccum (st : St) (realm : Str) : Accum :=
+  match alGet st.accum realm with
+  | some a => a
+  | none => ⟨(alGet st.rmeta realm).getD 0, 0⟩
+
+def setParamOk (st : St) (realm key : Str) (n : Nat) : St :=
+  { st with params := alSet st.params (realm, key) (n + 2),
+            accum := if paramDiff st realm key n = 0 then st.accum
+                     else alSet st.accum realm (accumAdd (curAccum st realm) (paramDiff st realm key n)) }
+
+/-- `params.SetString(key, n × 'x')` executed while `realm` is the current realm
+    (`pkey` rejects an empty key and a key with a colon). -/
 def setParam (st : St) (realm key : Str) (n : Nat) : Except Fail St :=
-  if key.isEmpty || key.any (· == ':') then .error .paramKey
-  else
-    let fullLen : Int := (3 + realm.length + 1 + key.length : Nat)
-    let newLen : Int := (n + 2 : Nat)
-    let diff : Int := match alGet st.params (realm, key) with
-      | some old => newLen - (old : Int)
-      | none => newLen + fullLen
-    let st := { st with params := alSet st.params (realm, key) (n + 2) }
-    if diff = 0 then .ok st
-    else
-      let a : Accum := match alGet st.accum realm with
-        | some a => a
-        | none => ⟨(alGet st.rmeta realm).getD 0, 0⟩
-      let bytes := a.bytes + diff
-      let floored := decide (bytes < 0)
-      let bytes := if floored then 0 else bytes
-      let delta := a.delta + diff
-      let delta := if floored && decide (delta < 0) then 0 else delta
-      .ok { st with accum := alSet st.accum realm ⟨bytes, delta⟩ }
+  if key.isEmpty || key.any (· == ':') then .error .paramKey else .ok (setParamOk st realm key n)
 
 /-! ### the interpreter -/
 
@@ -491,87 +502,107 @@ def loadSlot (env : Env) (tbl : Str → Nat → Option Nat) (owner : Str) (i : N
   | none => .ok none                        -- package main: loadSaved/loadGiven return nil
   | some k => if i < k then .ok (tbl owner i) else .error .index
 
+/-- the instructions that do not call other code: new banker register and state. -/
+def prim (env : Env) (cx : Ctx) (b : Option Nat) (i : Ins) (st : St) : Except Fail (Option Nat × St) :=
+  match i with
+  | .nb bt rv => do
+    let (t, st) ← evalRV env st cx rv
+    let (bid, st) ← newBanker st cx bt t
+    pure (some bid, st)
+  | .ro =>
+    let (bid, st) := readonlyBanker st
+    .ok (some bid, st)
+  | .ld i => do
+    let b ← loadSlot env env.saved cx.owner i
+    pure (b, st)
+  | .lg i => do
+    let b ← loadSlot env env.given cx.owner i
+    pure (b, st)
+  | .ub => .ok (cx.bk, st)
+  | .sd src dst amt => do
+    let st ← bankerSend env st b src dst amt
+    pure (b, st)
+  | .is addr denom amt => do
+    let st ← bankerIssue env st b false addr denom amt
+    pure (b, st)
+  | .rm addr denom amt => do
+    let st ← bankerIssue env st b true addr denom amt
+    pure (b, st)
+  | .ps key n =>
+    match cx.stack.head? with
+    | none => .error .nil
+    | some top =>
+      match st.tok top with
+      | none => .error .nil
+      | some ti => do
+        let st ← setParam st ti.path key n
+        pure (b, st)
+  | .bad => .error .script
+  | .cb => .error .script        -- not primitive (handled by `exec`)
+  | .x _ _ _ => .error .script   -- not primitive (handled by `exec`)
+
+/-- the context a callback body runs in: the creator's registers, the CALLER's frame stack -/
+def Clo.ctx : Clo → List Nat → Ctx
+  | .mk owner me arg bk cb _, stack => { owner := owner, me := me, arg := arg, bk := bk, cb := cb, stack := stack }
+
+def Clo.body : Clo → List Ins
+  | .mk _ _ _ _ _ body => body
+
+/-- a crossing call into package `path`: the frame's cur is minted, the callee's registers
+    are what the call passes. -/
+def crossCtx (st : St) (cx : Ctx) (path : Str) (presented : Nat) (arg bk : Option Nat) (cb : Option Clo) : Ctx × St :=
+  let (t, st) := enterCross st cx path presented
+  ({ owner := path, me := some t, arg := arg, bk := bk, cb := cb, stack := t :: cx.stack }, st)
+
+/-- `call(…)` of the interpreter realm: decide how the target is entered and with what. -/
+def planCall (env : Env) (st : St) (cx : Ctx) (b : Option Nat) (mode : Mode) (tgt : Tgt) : Except Fail (Ctx × St) :=
+  match resolveTgt env cx tgt with
+  | none => .error .script
+  | some path =>
+    match mode with
+    | .bad => .error .script
+    | .c => do
+      let p ← crossCheck st cx cx.me
+      pure (crossCtx st cx path p none none none)
+    | .ca => do
+      let p ← crossCheck st cx cx.me
+      pure (crossCtx st cx path p cx.me b none)
+    | .cg => do
+      let p ← crossCheck st cx cx.arg
+      pure (crossCtx st cx path p none none none)
+    | .cp => do
+      let pv ← prevTok st cx.me
+      let p ← crossCheck st cx (some pv)
+      pure (crossCtx st cx path p none none none)
+    | .cs name => do
+      let (s, st) ← subTok env st cx cx.me name
+      let p ← crossCheck st cx (some s)
+      pure (crossCtx st cx path p none none none)
+    | .n => .ok ({ owner := path, me := cx.me, arg := cx.me, bk := b, cb := cx.cb, stack := cx.stack }, st)
+    | .ng => .ok ({ owner := path, me := cx.arg, arg := cx.arg, bk := b, cb := cx.cb, stack := cx.stack }, st)
+    | .k body => do
+      let p ← crossCheck st cx cx.me
+      pure (crossCtx st cx path p none none (some (.mk cx.owner cx.me cx.arg b cx.cb body)))
+
 /-- run a script: `b` is the banker register of this `run` invocation. -/
 def exec (env : Env) : Nat → Ctx → Option Nat → List Ins → St → Except Fail St
   | 0, _, _, _, _ => .error .fuel
   | _ + 1, _, _, [], st => .ok st
   | f + 1, cx, b, i :: rest, st =>
     match i with
-    | .bad => .error .script
-    | .nb bt rv => do
-      let (t, st) ← evalRV env st cx rv
-      let (bid, st) ← newBanker st cx bt t
-      exec env f cx (some bid) rest st
-    | .ro =>
-      let (bid, st) := readonlyBanker st
-      exec env f cx (some bid) rest st
-    | .ld i => do
-      let b ← loadSlot env env.saved cx.owner i
-      exec env f cx b rest st
-    | .lg i => do
-      let b ← loadSlot env env.given cx.owner i
-      exec env f cx b rest st
-    | .ub => exec env f cx cx.bk rest st
-    | .sd src dst amt => do
-      let st ← bankerSend env st b src dst amt
-      exec env f cx b rest st
-    | .is addr denom amt => do
-      let st ← bankerIssue env st b false addr denom amt
-      exec env f cx b rest st
-    | .rm addr denom amt => do
-      let st ← bankerIssue env st b true addr denom amt
-      exec env f cx b rest st
-    | .ps key n =>
-      match cx.stack.head? with
-      | none => .error .nil
-      | some top =>
-        match st.tok top with
-        | none => .error .nil
-        | some ti => do
-          let st ← setParam st ti.path key n
-          exec env f cx b rest st
     | .cb =>
       match cx.cb with
       | none => .error .nil
-      | some (.mk owner me arg bk cb body) => do
-        let st ← exec env f { owner := owner, me := me, arg := arg, bk := bk, cb := cb, stack := cx.stack } none body st
+      | some clo => do
+        let st ← exec env f (clo.ctx cx.stack) none clo.body st
         exec env f cx b rest st
-    | .x mode tgt prog =>
-      match resolveTgt env cx tgt with
-      | none => .error .script
-      | some path =>
-        let crossInto (presented : Nat) (arg bk : Option Nat) (cb : Option Clo) (st : St) : Except Fail St := do
-          let (t, st) := enterCross st cx path presented
-          let st ← exec env f { owner := path, me := some t, arg := arg, bk := bk, cb := cb, stack := t :: cx.stack } none prog st
-          exec env f cx b rest st
-        match mode with
-        | .bad => .error .script
-        | .c => do
-          let p ← crossCheck st cx cx.me
-          crossInto p none none none st
-        | .ca => do
-          let p ← crossCheck st cx cx.me
-          crossInto p cx.me b none st
-        | .cg => do
-          let p ← crossCheck st cx cx.arg
-          crossInto p none none none st
-        | .cp => do
-          let pv ← prevTok st cx.me
-          let p ← crossCheck st cx (some pv)
-          crossInto p none none none st
-        | .cs name => do
-          let (s, st) ← subTok env st cx cx.me name
-          let p ← crossCheck st cx (some s)
-          crossInto p none none none st
-        | .n => do
-          let st ← exec env f { owner := path, me := cx.me, arg := cx.me, bk := b, cb := cx.cb, stack := cx.stack } none prog st
-          exec env f cx b rest st
-        | .ng => do
-          let st ← exec env f { owner := path, me := cx.arg, arg := cx.arg, bk := b, cb := cx.cb, stack := cx.stack } none prog st
-          exec env f cx b rest st
-        | .k body => do
-          let p ← crossCheck st cx cx.me
-          crossInto p none none (some (.mk cx.owner cx.me cx.arg b cx.cb body)) st
+    | .x mode tgt prog => do
+      let (cx', st) ← planCall env st cx b mode tgt
+      let st ← exec env f cx' none prog st
+      exec env f cx b rest st
+    | i => do
+      let (b', st) ← prim env cx b i st
+      exec env f cx b' rest st
 
 /-! ## storage deposit (keeper.go processStorageDeposit) -/
 
